@@ -17,8 +17,10 @@ def run(ctx):
         # no private netns: the ENI lookup by MAC needs a hardware-type link, lo has no MAC
         entries=[("plugin/terway", "TestVerifNetConf", False)],
         rule="TLC enumerates DomSeq of specs/NetConf.tla completely; every case is one ADD: the real daemon service "
-             "(AllocIP over eni.Manager and the real Remote / CRDV2 back-ends on a fake API client, LocalIPResource for "
-             "the node-local pool), a protobuf hop, then the real plugin code (getCmdArgs, parseSetupConf, getDatePath; "
+             "(AllocIP over eni.Manager and the real Remote / CRDV2 back-ends on a fake API client; the node-local pool "
+             "either as a case-built LocalIPResource (kind local) or as the real eni.Local run by the Manager on a fake "
+             "cloud factory after a history of earlier ADD/DEL and pool shrinking played through the same service (kind "
+             "localpool)), a protobuf hop, then the real plugin code (getCmdArgs, parseSetupConf, getDatePath; "
              "GetIPInfo + parseTearDownConf for DEL); TLC judges reply and SetupConfigs with Bad(c). Non-trivial = more "
              "than one interface, trunking, VLAN mode, bandwidth override, dual stack, extra routes or a non-local back-end",
         nontrivial=_nontrivial,
@@ -26,13 +28,22 @@ def run(ctx):
                     "stack(v4, v6, dual) x subnet(/24 /28 /25 /30, v6 /64 /120; thorough adds /10 /16 /20 /29 /30@.252, "
                     "/56 /96 /112 /126) x address position(first, middle, gateway-1, gateway+1); B 1..3 interfaces x names "
                     "('', eth0, eth1, net2) x every default-route flag vector; C VLAN mode('', filter, vlan) x runtime "
-                    "ingress/egress override x pod limits x back-end; D extra-route lists; datapath selector on every "
-                    "IP type x VLAN mode x trunk flag",
+                    "ingress/egress override x pod limits x back-end; D extra-route lists; E real node-local pool (one interface "
+                    "slot): history(fresh slot, served from idle addresses, interface shared with a pod that stays, partial shrink on the same interface, whole "
+                    "interface of another vSwitch deleted and slot re-used, partial then whole deletion) x stack(v4, dual) "
+                    "x subnet(/24 /28 /25, v6 /64 /120) x address position (quick 4 stacks = 24 cases, thorough 25 = 150); "
+                    "datapath selector on every IP type x VLAN mode x trunk flag",
         assumptions=["exhaustive within the stated finite domain only",
                      "allocations are well formed in themselves (address inside its vSwitch prefix, prefix present, VLAN id "
                      "recorded for trunk members); inconsistency is explored only in interface names and default-route flags",
-                     "node-local pool: the LocalIPResource is built by the harness from the case (vSwitch prefix and gateway "
-                     "as the metadata service reports them); the pool's own bookkeeping is C01's subject",
+                     "node-local pool, kind local: the LocalIPResource is built by the harness from the case (vSwitch prefix and "
+                     "gateway as the metadata service reports them). Kind localpool: the resource comes from the real pool; the "
+                     "cloud is a fake factory that, like pkg/factory/aliyun, reports the IPv6 subnet/gateway only for an "
+                     "interface created with IPv6 addresses; one slot, sequential histories, healthy cloud, cloud-call rate "
+                     "limiters replaced by fast ones; no IPv6-only pool (ipStack ipv6 is rejected by the daemon's configuration "
+                     "check); concurrency and faults of the pool are C01's subject",
+                     "a crash of a pool worker goroutine (not the goroutine of the ADD) ends the harness process: reported as a "
+                     "machinery error (exit 2), not as a violation",
                      "ENI lookup by MAC resolves to a hardware-type link of the sandbox (no MAC, lookup skipped, when there is none); ENIIndex is not judged",
                      "which datapath a (IP type, trunk, VLAN mode) triple maps to is not stated by the property and not judged",
                      "IPType VPCIP is not produced by AllocIP; for it only the datapath selector is exercised"])
